@@ -441,9 +441,6 @@ func (r *c11Run[K, V]) violate(clause, sig, what string, ops []c11Op, sn *c11Sna
 	detail := fmt.Sprintf("%s\n  MaxSize=%d values=%s age=%ds ops: %s\n  saved: %s\n  save -> %v elapsed -> load into MaxSize=%d",
 		what+r.faultNote, r.cfg.MaxSize, r.cfg.VT, r.cfg.AgeS, c11Ops(ops), r.show(sn, 0), time.Duration(elapsed), target)
 	cost := len(ops)*100 + extra
-	if r.faultNote != "" {
-		sig = "after-failed-save:" + sig
-	}
 	r.res.Violate(clause, sig, detail, cost, c11Replay{Cfg: r.cfg, Ops: ops, Target: target, Elapsed: elapsed, ElapsedS: float64(elapsed) / 1e9})
 }
 
